@@ -382,6 +382,7 @@ def parts(tier):
                   rule="all sets of <= 3 (thorough 4) labelled intervals on the grid %s, threshold 0.3 (thorough also 0.8): sub-threshold intervals and "
                        "gaps at the start, in the middle and at the end of one tier at the same time x the same overrides and oracles" % (FINE,),
                   bounds={"grid": len(FINE)}, snippet=c01._snippet, chunk=8),
+        c01.residue_part(quick),
         InputPart("labels-unicode-forms", c01.layer_unicode_forms, check,
                   rule="the %d non-NFC / case-folding-sensitive / canonically equivalent strings of C01 as labels and tier names: written code point for "
                        "code point in all four formats" % len(c01.UNICODE_FORMS), bounds={}, snippet=c01._snippet, chunk=2),
